@@ -29,11 +29,11 @@ CHECKS = {
          "Trusted: Coq kernel; transcription of Run/before/execute/after/CompileTask with commands abstracted to (result, stdout); the fixed shape of generated shell commands; mvdan/sh and text/template; Go engine taskrun, python driver. No axioms.",
          "DESIGN.md section 6.1, C06", "taskrun"),
  "C07": ("Coq proof: error-iff-failed and exit-code theorems on the TaskRun model, prefix/exit-status laws of the CLI target loop model; differential correspondence: every exit status 0..255 through the real TaskRunner, target sequences through the real binary",
-         "C07_error_iff_failed, C07_exit_code_recorded, C07_success_records_zero, C07_skipped_records_nothing for all tasks; C07_cli_runs_prefix / C07_cli_exit_zero_iff_all_ok for all target lists. Tied to the code by all statuses 0..255 at command positions and by 1..3 CLI targets in every order through three invocation forms.",
+         "C07_error_iff_failed, C07_exit_code_recorded, C07_success_records_zero, C07_skipped_records_nothing for all tasks; C07_cli_runs_prefix / C07_cli_exit_zero_iff_all_ok for all target lists; C07_cli_cancelling_prefix / _exit_zero_iff / C07_cli_refused_target for target lists in which a target may leave the runner cancelled. Tied to the code by all statuses 0..255 at command positions and by 1..3 CLI targets in every order through three invocation forms.",
          "Trusted: as C06, plus Model/Cli.v transcription of the target loops and main's exit path; the python driver running the built binary. No axioms.",
          "DESIGN.md section 6 C07", "taskrun+cli"),
  "C08": ("Coq proof: non-interference invariant over all interleavings of the micro-steps (prepare / hand over) of any list of uses of shared tasks, with an explicit store model of aliasing; differential correspondence with a recording Runner under the real Scheduler.runStage",
-         "C08_isolation for every task table, every list of uses and every interleaving; layering laws for env/variables/dir. Tied to scheduler.go by pipelines of 2..6 stages sharing one task in every dependency arrangement (every DAG on <=3, sampled/all on 4) with distinct overrides and random durations, followed by a direct run and a second pipeline.",
+         "C08_isolation for every task table, every list of uses and every interleaving (settings = env, variables, dir and - as one opaque value - every other field of the task: C08_other_fields_untouched); layering laws for env/variables/dir. Tied to scheduler.go by pipelines of 2..6 stages sharing one task in every dependency arrangement (every DAG on <=3, sampled/all on 4) with distinct overrides and random durations, followed by a direct run and a second pipeline.",
          "Trusted: Coq kernel; store/micro-step transcription of runStage (private copy); containers as association lists compared extensionally; Go engine stageov, python driver. No axioms.",
          "DESIGN.md section 6 C08", "stageov"),
  "C09": ("Coq proof: precedence law of the job/process environment over seven layers and of the working directory (first defined wins, any names and values) on a model of Run/CompileTask/runStage/Execute; differential correspondence through the real binary with a controlled parent environment",
